@@ -135,6 +135,11 @@ type world struct {
 	KeyProto  uint8
 	KeyAlg    uint8
 	KeyOctets []byte
+	// text-level alterations: when set, the library gets this string as the Signature / PublicKey
+	// field instead of the canonical base64 of the octets above, and the reference decodes it the
+	// strict RFC 4648 way (a string that does not decode is not a signature / key at all)
+	SigText *string
+	KeyText *string
 }
 
 func (w world) clone() world {
@@ -202,6 +207,20 @@ func (w world) keyRdata() []byte {
 
 // refVerify is the acceptance predicate of the property statement; nil = valid.
 func (w world) refVerify() error {
+	if w.SigText != nil {
+		b, err := ref.StrictBase64(*w.SigText)
+		if err != nil {
+			return err
+		}
+		w.Signature = b
+	}
+	if w.KeyText != nil {
+		b, err := ref.StrictBase64(*w.KeyText)
+		if err != nil {
+			return err
+		}
+		w.KeyOctets = b
+	}
 	if len(w.Set) == 0 {
 		return errors.New("empty RRset")
 	}
@@ -274,11 +293,22 @@ func (w world) libSet() ([]dns.RR, error) {
 }
 
 func (w world) libKey() *dns.DNSKEY {
+	if w.KeyText != nil {
+		return &dns.DNSKEY{Hdr: dns.RR_Header{Name: wm.EscName(w.KeyOwner), Rrtype: dns.TypeDNSKEY, Class: w.KeyClass, Ttl: 3600},
+			Flags: w.KeyFlags, Protocol: w.KeyProto, Algorithm: w.KeyAlg, PublicKey: *w.KeyText}
+	}
 	return &dns.DNSKEY{Hdr: dns.RR_Header{Name: wm.EscName(w.KeyOwner), Rrtype: dns.TypeDNSKEY, Class: w.KeyClass, Ttl: 3600},
 		Flags: w.KeyFlags, Protocol: w.KeyProto, Algorithm: w.KeyAlg, PublicKey: base64.StdEncoding.EncodeToString(w.KeyOctets)}
 }
 
 func (w world) libSig() *dns.RRSIG {
+	if w.SigText != nil {
+		x := w
+		x.SigText = nil
+		r := x.libSig()
+		r.Signature = *w.SigText
+		return r
+	}
 	return &dns.RRSIG{Hdr: dns.RR_Header{Name: wm.EscName(w.SigOwner), Rrtype: dns.TypeRRSIG, Class: w.SigClass, Ttl: w.SigTTL},
 		TypeCovered: w.F.TypeCovered, Algorithm: w.F.Alg, Labels: w.F.Labels, OrigTtl: w.F.OrigTTL, Expiration: w.F.Expiration,
 		Inception: w.F.Inception, KeyTag: w.F.KeyTag, SignerName: wm.EscName(w.F.Signer), Signature: base64.StdEncoding.EncodeToString(w.Signature)}
